@@ -47,3 +47,25 @@ Definition admissible (lower : text -> text) (dt : dtype) (nchar : Z) (f : forma
   fixed_dtype dt && negb (is_nil m) && (1 <=? nchar) && rectangular nchar m
   && cells_ok (alphabet_of_dtype dt) m && labels_distinct lower (map fst m)
   && labels_ok_for f (map fst m).
+
+(* ---- alphabets NexusWriter writes as DATATYPE=STANDARD SYMBOLS="..." ---- *)
+
+(* every state is fundamental or the missing-data state "?", every fundamental symbol is one
+   plain character without case variants other than "?", and one of them is not the gap "-" *)
+Definition std_alphabet_ok (a : alphabet) : bool :=
+  forallb (fun s => skind_eqb (s_kind s) Fundamental || text_eqb (s_symbol s) t_qm) (a_states a)
+  && forallb (fun s => match s with
+                       | [c] => (ascii_upper c =? c) && (ascii_lower c =? c) && negb (c =? 63)
+                                && plain_symbol_char c
+                       | _ => false
+                       end) (fundamental_symbols [a])
+  && existsb (fun s => negb (text_eqb s t_dash)) (fundamental_symbols [a])
+  && texts_distinct (fundamental_symbols [a])
+  && alphabet_cells_ok a
+  && match amb_terms_all [a] with
+     | Ok amb => list_eqb text_eqb amb [] || list_eqb text_eqb amb [kw_MISSING; t_eq; t_qm]
+     | _ => false
+     end.
+
+Definition std_dtype (dt : dtype) : bool :=
+  match dt with DtStandard | DtRestriction | DtInfinite => true | _ => false end.
